@@ -19,10 +19,23 @@ def _cols(name):
     return [c.strip().split('.')[-1] for c in sel.split(',')]
 
 
+def _table_cols():
+    """column order of rule_results as created by open(): INSERT ... VALUES (?, ...) binds by position"""
+    src = open(os.path.join(REPO, 'lib/Core/SQLiteBuildDB.cpp')).read()
+    m = re.search(r'"CREATE TABLE rule_results \("((?:\s*"[^"]*")+)', src)
+    body = ''.join(re.findall(r'"([^"]*)"', m.group(1)))
+    cols = [c.strip().split()[0] for c in body.split(',') if c.strip() and not c.strip().startswith('FOREIGN')]
+    ins = re.search(r'insertIntoRuleResultsStmtSQL\s*=\s*"([^"]*)"', src).group(1)
+    if not re.match(r'INSERT OR REPLACE INTO rule_results VALUES \((\?, ){%d}\?\);' % (len(cols) - 1), ins):
+        raise RuntimeError('INSERT statement of rule_results is not positional over %d columns: %s' % (len(cols), ins))
+    return cols
+
+
 try:
     FAST, SLOW = _cols('fastFindRuleResultStmtSQL'), _cols('findRuleResultStmtSQL')
+    TAB = _table_cols()
 except Exception as e:           # the runner reports this as an extraction failure (exit 2)
-    FAST = SLOW = None
+    FAST = SLOW = TAB = None
     _ERR = str(e)
 
 
@@ -45,20 +58,21 @@ UNIT = {
     'source': 'lib/Core/SQLiteBuildDB.cpp',
     'dumps': ['SQLiteBuildDB', 'DBKeyID', 'core::Result'],
     'full_structs': ['Result'],
-    'types': {'std::string': 'vstr', 'string': 'vstr', 'basic_string<char>': 'vstr', 'StringRef': 'strref', 'KeyType': 'keyt', 'KeyID': 'struct KeyID',
+    'types': {'DependencyKeyIDs::KeyIDAndFlags': 'struct KeyIDAndFlags', 'KeyIDAndFlags': 'struct KeyIDAndFlags', 'std::string': 'vstr', 'string': 'vstr', 'basic_string<char>': 'vstr', 'StringRef': 'strref', 'KeyType': 'keyt', 'KeyID': 'struct KeyID',
               'ValueType': 'vbytes', 'std::vector<uint8_t>': 'vbytes', 'Epoch': 'uint64_t', 'std::mutex': 'verif_mutex', 'mutex': 'verif_mutex',
               'basic::Clock::Timestamp': 'double', 'Clock::Timestamp': 'double', 'sqlite3_stmt': 'struct sqlite3_stmt', 'sqlite3': 'struct sqlite3',
-              'basic::BinaryDecoder': 'struct bdec', 'BinaryDecoder': 'struct bdec', 'Twine': 'const char *'},
+              'basic::BinaryDecoder': 'struct bdec', 'BinaryDecoder': 'struct bdec', 'basic::BinaryEncoder': 'struct benc', 'BinaryEncoder': 'struct benc', 'Twine': 'const char *'},
     'type_patterns': [(r'vector<(unsigned char|uint8_t)(, allocator<(unsigned char|uint8_t)>)?\s*>', 'vbytes'),
                       (r'pair<KeyID, .*DBKeyID>', 'struct kv_kd'), (r'pair<DBKeyID, .*KeyID>', 'struct kv_dk'),
                       (r'(detail::)?DenseMapPair<KeyID, .*DBKeyID>', 'struct kv_kd'), (r'(detail::)?DenseMapPair<.*DBKeyID, .*KeyID>', 'struct kv_dk'),
                       (r'DenseMapIterator<KeyID, .*', 'struct kv_kd *'), (r'DenseMapIterator<.*DBKeyID, .*', 'struct kv_dk *'),
                       (r'DenseMap<KeyID, .*>::iterator', 'struct kv_kd *'), (r'DenseMap<.*DBKeyID, .*>::iterator', 'struct kv_dk *'),
                       (r'DenseMap<KeyID, .*', 'struct map_kd'), (r'DenseMap<.*DBKeyID, .*', 'struct map_dk')],
-    'by_value': ['struct KeyID', 'vbytes', 'struct CommandSignature', 'strref', 'struct SQLiteBuildDB_DBKeyID', 'struct DBKeyID'],
+    'by_value': ['struct KeyIDAndFlags', 'struct KeyID', 'vbytes', 'struct CommandSignature', 'strref', 'struct SQLiteBuildDB_DBKeyID', 'struct DBKeyID'],
     'by_pointer': ['vstr', 'keyt'],
-    'predefined_structs': ['DBKeyID', 'KeyID', 'KeyIDAndFlags', 'DependencyKeyIDs', 'CommandSignature', 'bdec', 'map_kd', 'map_dk', 'kv_kd', 'kv_dk', 'sqlite3_stmt', 'sqlite3'],
+    'predefined_structs': ['DBKeyID', 'KeyID', 'KeyIDAndFlags', 'DependencyKeyIDs', 'CommandSignature', 'bdec', 'benc', 'map_kd', 'map_dk', 'kv_kd', 'kv_dk', 'sqlite3_stmt', 'sqlite3'],
     'no_translate': ['open', 'getCurrentErrorMessage', 'getKeyID'],
+    'range_by_value': True,
     'drop_if_mentions': [],
     'calls': {
         'fn:memcpy': 'verif_memcpy_rec', 'fn:move': '$0', 'm:SQLiteBuildDB::getKeyIDForID': 'verif_getKeyIDForID_abs', 'm:SQLiteBuildDB::getCurrentErrorMessage': 'vstr_errmsg',
@@ -70,6 +84,9 @@ UNIT = {
         'm:@keyt::data': 'keyt_data', 'm:@keyt::size': 'keyt_size', 'm:@vstr::empty': '($o->len == 0)',
         'c:StringRef(const char *, size_t)': 'strref_make', 'c:BinaryDecoder(StringRef)': 'bdec_make', 'm:@struct bdec::read': ('bdec_read_u64', 'p'),
         'c:CommandSignature(uint64_t)': 'sig_make', 'c:DBKeyID(uint64_t)': 'dbkeyid_make', 'c:DBKeyID()': 'dbkeyid_zero', 'c:DBKeyID/0': 'dbkeyid_zero', 'c:KeyID()': 'keyid_zero', 'c:KeyID/0': 'keyid_zero', 'c:KeyType(const char *, size_t)': 'keyt_make', 'c:KeyType(const char *)': 'keyt_cstr',
+        'm:SQLiteBuildDB::getKeyID': 'verif_getKeyID_abs', 'range:@struct DependencyKeyIDs': ('verif_deps_size', 'verif_deps_at'),
+        'm:@struct benc::write': ('benc_write_u64', 'v'), 'm:@struct benc::data': 'benc_data', 'm:@struct benc::size': 'benc_size', 'c:BinaryEncoder()': 'benc_make', 'c:BinaryEncoder/0': 'benc_make',
+        'm:@vbytes::size': 'vbytes_size',
         'o:=:@vstr': 'vstr_assign', 'c:Twine(const char *)': '$0', 'c:Twine(int)': 'verif_twine_i', 'o:+:Twine': 'verif_twine_cat', 'm:Twine::str': 'vstr_msg',
     },
     'call_patterns': [
@@ -131,4 +148,34 @@ if FAST is not None:
                           'decreases': 'numDependencies - i'}},
             'callee_as_stub': {'SQLiteBuildDB_getKeyIDForID': True},
         },
+    }
+    _b = lambda n: TAB.index(n) + 1      # bind index of a column (INSERT binds by position)
+    DEPW = '(((g_dbkey_of[g_k]) << 2) + ((uint64_t)(ruleResult->dependencies.items.ptr[g_k].singleUse != 0) << 1) + (uint64_t)(ruleResult->dependencies.items.ptr[g_k].orderOnly != 0))'
+    UNIT['functions']['SQLiteBuildDB::setRuleResult'] = {
+        'solver': 'cadical',
+        'requires': ['__CPROVER_is_fresh(self, sizeof(*self))', '__CPROVER_is_fresh(self->delegate, sizeof(*self->delegate))', '__CPROVER_is_fresh(error_out, sizeof(*error_out))',
+                     '__CPROVER_is_fresh(ruleResult, sizeof(*ruleResult))', '__CPROVER_is_fresh(rule, 1)', '__CPROVER_is_fresh(self->insertIntoRuleResultsStmt, 1)',
+                     'VEC_OK(ruleResult->dependencies.items, struct KeyIDAndFlags) && ruleResult->dependencies.items.cap <= 512',
+                     '!self->dbMutex.held', 'error_out->len == 0 && g_errors == 0 && g_enc_n == 0 && g_getkey_calls == 0 && g_stepped == 0', 'g_k < 512',
+                     'g_k < ruleResult->dependencies.items.len ==> (ruleResult->dependencies.items.ptr[g_k].singleUse <= 1 && ruleResult->dependencies.items.ptr[g_k].orderOnly <= 1)',
+                     'ruleResult->start == ruleResult->start && ruleResult->end == ruleResult->end'],     # times are not NaN
+        'assigns': ['*error_out', 'self->dbMutex.held', 'g_errors', 'g_bound_stmt', 'g_enc_n', '__CPROVER_object_whole(g_enc_words)', 'g_getkey_calls', 'g_getkey_last',
+                    '__CPROVER_object_whole(g_bind_i64)', '__CPROVER_object_whole(g_bind_ptr)', '__CPROVER_object_whole(g_bind_bytes)', '__CPROVER_object_whole(g_bind_dbl)', 'g_stepped'],
+        'ensures': [
+            ('P:C03', '!g_open_ok ==> !RESULT'), ('P:C03', '!self->dbMutex.held'),
+            # success means the row was written by stepping the insert statement to completion
+            ('P:C03,P:C04', 'RESULT ==> (g_stepped == 1 && g_bound_stmt == self->insertIntoRuleResultsStmt && g_step_result == 101)'),
+            # every field of the result is bound to the column the table declares for it (the order lookupRuleResult reads by name)
+            ('P:C03', 'RESULT ==> (g_bind_i64[%d] == (long long)g_dbkey_of_rule && g_bind_i64[%d] == (long long)ruleResult->signature.value)' % (_b('key_id'), _b('signature'))),
+            ('P:C03,P:C02', 'RESULT ==> (g_bind_i64[%d] == (long long)ruleResult->builtAt && g_bind_i64[%d] == (long long)ruleResult->computedAt)' % (_b('built_at'), _b('computed_at'))),
+            ('P:C03', 'RESULT ==> (g_bind_dbl[%d] == ruleResult->start && g_bind_dbl[%d] == ruleResult->end)' % (_b('start'), _b('end'))),
+            ('P:C03', 'RESULT ==> (g_bind_ptr[%d] == (const void *)ruleResult->value.ptr && g_bind_bytes[%d] == (int)ruleResult->value.len)' % (_b('value'), _b('value'))),
+            # the dependency blob is the word sequence (db id << 2 | single-use << 1 | order-only), one word per dependency, in order
+            ('P:C03', 'RESULT ==> (g_bind_ptr[%d] == (const void *)g_enc_words && g_bind_bytes[%d] == (int)(8 * ruleResult->dependencies.items.len) && g_enc_n == ruleResult->dependencies.items.len)' % (_b('dependencies'), _b('dependencies'))),
+            ('P:C03', '(RESULT && g_k < ruleResult->dependencies.items.len) ==> g_enc_words[g_k] == %s' % DEPW),
+        ],
+        'loops': {0: {'assigns': ['$i', 'g_enc_n', '__CPROVER_object_whole(g_enc_words)', 'g_getkey_calls', 'g_getkey_last', 'g_errors', '*error_out'],
+                      'invariant': ['$i <= $range->items.len && g_enc_n == $i && error_out->len == 0 && self->dbMutex.held && g_getkey_calls == $i + 1',
+                                    '(g_k < $i) ==> g_enc_words[g_k] == %s' % DEPW],
+                      'decreases': '$range->items.len - $i'}},
     }
